@@ -100,7 +100,9 @@ class Finders:
       return previous
     elif gfa_line.record_type == "C":
       return self.__search_edge_id(gfa_line)
-    elif gfa_line.record_type in self.RECORDS_WITH_NAME:
+    elif gfa_line.record_type in self.RECORDS_WITH_NAME and \
+        gfa_line.__class__.STORAGE_KEY == "name":
+      # (a custom record may have the record type "\n" of the unknown lines)
       return self.line(gfa_line.name)
     else:
       return None
